@@ -5,8 +5,8 @@ use crate::{ids, runner::CaseReport};
 use discv5::{
     enr::{EnrKey, NodeId},
     packet::{PacketKind, ProtocolIdentity},
-    verif::{self as hv, packet_authenticated_data, packet_encode, HandlerIn, Request, RequestBody, RequestId, VPacket},
-    Enr, NodeContact,
+    verif::{self as hv, packet_authenticated_data, packet_encode, HandlerIn, Request, RequestBody, RequestId, Response, ResponseBody, VPacket},
+    Enr, NodeAddress, NodeContact,
 };
 use std::{
     net::{IpAddr, Ipv4Addr, SocketAddr},
@@ -323,6 +323,26 @@ pub fn act(w: &mut World, op: &Op) -> bool {
                 None => false,
             }
         }
+        Op::RespondWithForeignId { node, sel: s } => {
+            let q = *node as usize % n;
+            if q == 0 {
+                return false;
+            }
+            let q_addr = w.nodes[q].addr;
+            let cands: Vec<usize> = w.submitted.iter().enumerate().filter(|(_, x)| x.from == 0 && x.to_addr != q_addr).map(|(i, _)| i).collect();
+            let Some(k) = sel(&cands, *s) else { return false };
+            let sub = w.submitted[cands[k]].clone();
+            let body = match &sub.body {
+                RequestBody::Ping { .. } => ResponseBody::Pong { enr_seq: w.nodes[q].enr.seq(), ip: w.nodes[0].addr.ip(), port: std::num::NonZeroU16::new(w.nodes[0].addr.port()).unwrap_or(std::num::NonZeroU16::new(1).unwrap()) },
+                RequestBody::FindNode { .. } => ResponseBody::Nodes { total: 1, nodes: vec![] },
+                RequestBody::Talk { .. } => ResponseBody::Talk { response: vec![0x51, 0x51] },
+            };
+            let r = Response { id: sub.id.clone(), body };
+            let addr = NodeAddress::new(w.nodes[0].addr, ids::node_id(&w.nodes[0].id));
+            w.responses_given.push((q, addr.clone(), r.clone()));
+            let _ = w.nodes[q].vh.to_handler.send(HandlerIn::Response(addr, Box::new(r)));
+            true
+        }
         Op::Replay { d, from } => match sel(&w.log, *d) {
             Some(i) => {
                 let dg = w.log[i].clone();
@@ -425,6 +445,10 @@ pub fn act(w: &mut World, op: &Op) -> bool {
                     }
                     s
                 }
+                Signer::Genuine => match w.xnode(x) {
+                    Some(j) => hv::sign_nonce(&w.nodes[j].key, &challenge, &eph_bytes, &vid).unwrap_or_default(),
+                    None => vec![],
+                },
                 Signer::Garbage => prng(w.step, 31, 64),
                 Signer::Empty => vec![],
                 Signer::Truncated => {
@@ -523,6 +547,37 @@ pub fn act(w: &mut World, op: &Op) -> bool {
             w.inject(t, from, bytes, None, Some("guessed-key-message".into()));
             true
         }
+        Op::UndecodableMessage { peer, to, variant } => {
+            let j = 1 + (*peer as usize % (n - 1).max(1));
+            let mut t = *to as usize % n;
+            if n < 2 || j >= n {
+                return false;
+            }
+            if t == j {
+                t = 0;
+            }
+            // the key under which j encrypts for t right now
+            let t_addr = w.nodes[t].addr;
+            let Some(k) = w.snaps[j].sessions.iter().find(|s| s.addr.socket_addr == t_addr).map(|s| s.keys.0) else { return false };
+            let plain: Vec<u8> = match variant % 3 {
+                0 => vec![0x09, 0xc1, 0x01],
+                1 => discv5::verif::Message::Request(Request { id: RequestId(vec![0x77, w.step as u8]), body: RequestBody::FindNode { distances: vec![300] } }).encode(),
+                _ => vec![0x01, 0xc5, 0x01],
+            };
+            let mut vp = VPacket {
+                iv: u128::from_be_bytes(arr::<16>(prng(w.step, 73, 16))),
+                message_nonce: arr::<12>(prng(w.step, 74, 12)),
+                protocol_identity: ProtocolIdentity::default(),
+                kind: PacketKind::Message { src_id: ids::node_id(&w.nodes[j].id) },
+                message: vec![],
+            };
+            let aad = packet_authenticated_data(&vp);
+            vp.message = hv::encrypt_message(&k, vp.message_nonce, &plain, &aad).unwrap_or_default();
+            let bytes = packet_encode(vp, &ids::node_id(&w.nodes[t].id));
+            let from = w.nodes[j].addr;
+            w.inject(t, from, bytes, None, Some("undecodable-message-under-the-session-key".into()));
+            true
+        }
         Op::ForgedWhoAreYou { d, from, to, random_nonce } => match sel(&w.log, *d) {
             Some(i) => {
                 let dg = w.log[i].clone();
@@ -545,6 +600,16 @@ pub fn act(w: &mut World, op: &Op) -> bool {
             }
             None => false,
         },
+        Op::SubmitToMany { n: many } => {
+            let pk = attacker_key(0).public();
+            for i in 0..(*many).min(1500) {
+                let addr = SocketAddr::new(std::net::IpAddr::V4(std::net::Ipv4Addr::new(10, 200, (i >> 8) as u8, i as u8)), 8000 + (i % 500));
+                let contact = NodeContact::new(pk.clone(), addr, None);
+                let rb = w.make_body(Body::Ping, 0);
+                w.submit(0, contact, rb, false);
+            }
+            true
+        }
         Op::SubmitToAttacker { x, z, with_record, body } => {
             let Some(j) = w.xnode(x) else { return false };
             let rb = w.make_body(*body, 0);
